@@ -91,6 +91,9 @@ func (p c18) Run(w *mon.Worker, idx int) mon.Result {
 	}
 	t0, b0 := time.Now(), c18st.binCalls
 	var res mon.Result
+	if idx%10 == 9 && !w.Race {
+		return c18NulPrinter(w, idx)
+	}
 	switch c18Family(w.Tier, idx) {
 	case "repeat":
 		res = c18RunRepeat(w, idx)
